@@ -136,3 +136,4 @@ fn c07_bounds_comp_complete() {
     assert!(c.extra_cells == mid.saturating_add(mc));
     assert!(c.extra_frames == mf.saturating_add(1));
 }
+
